@@ -13,7 +13,7 @@ import vlib
 
 PID = "C14"
 
-QUICK = ["1x1", "1x4", "2x1", "2x2:rmw:j", "2x8", "3x3:rmw:j", "4x2", "4x4:rmw:j", "4x8",
+QUICK = ["1x1", "1x4", "2x2:rmw:j", "2x8", "3x3:rmw:j", "4x4:rmw:j", "4x8",
          "2x4:save", "3x2:save:j", "4x2:save"]
 THOROUGH_TLC = ["1x1", "1x8", "2x1:rmw:j", "2x2:rmw:j", "2x8:rmw:j", "3x3:rmw:j", "3x8", "4x1:rmw:j", "4x2:rmw:j", "4x4:rmw:j", "4x8:rmw:j",
                 "1x4:save", "2x4:save:j", "3x2:save:j", "4x2:save:j", "4x4:save:j"]
@@ -30,7 +30,27 @@ def validate(wd, norm, v, label):
     raise vlib.Inconclusive("TLC failed on the %s trace (exit %s):\n%s" % (label, r.exit, r.output[-2500:]))
 
 
+def _keep_evidence(replay):
+    """A --replay run re-executes one case: it must not replace the evidence of the last full run."""
+    path = os.path.join(vlib.VERIF, "evidence", PID + ".json")
+    return (path, open(path).read()) if replay and os.path.exists(path) else None
+
+
+def _restore_evidence(kept):
+    if kept:
+        with open(kept[0], "w") as f:
+            f.write(kept[1])
+
+
 def run(tier, seed, replay=None):
+    kept = _keep_evidence(replay)
+    try:
+        return _run(tier, seed, replay)
+    finally:
+        _restore_evidence(kept)
+
+
+def _run(tier, seed, replay=None):
     wd = vlib.workdir(PID)
     v = vlib.Verdict(PID, tier, seed)
     # ---- (A) design level
@@ -43,7 +63,7 @@ def run(tier, seed, replay=None):
         if w.violated != inv:
             raise vlib.Inconclusive("variant %s did not violate %s (exit %s)" % (name, inv, w.exit))
         variants[name] = inv
-    wit = vlib.witnesses("StatusFileMC", "StatusFile_quick.cfg", ["W_NoContention", "W_NoTwoUpdates", "W_NoLoadOfRec", "W_AllDone"], wd)
+    wit = vlib.witnesses("StatusFileMC", "StatusFile_quick.cfg", ["W_NoContention", "W_AllDone"] if tier == "quick" else ["W_NoContention", "W_NoTwoUpdates", "W_NoLoadOfRec", "W_AllDone"], wd)
 
     # ---- (B) conformance of the real code
     vsf = vlib.build_harness("vsf")
@@ -53,7 +73,7 @@ def run(tier, seed, replay=None):
         c = rp.get("config", "r00_4x4_rmw").split("_")[1] + ":" + rp.get("mode", "rmw") + (":j" if rp.get("jitter") else "")
         runs.append(("replay", [c] * 5, int(rp.get("ops", 40)), int(rp.get("seed", seed)), True))
     elif tier == "quick":
-        runs.append(("main", QUICK, 40, seed, True))
+        runs.append(("main", QUICK, 30, seed, True))
     else:
         runs.append(("main", THOROUGH_TLC, 120, seed, True))
         runs.append(("bulk", THOROUGH_BULK, 1500, seed + 1000, False))
